@@ -81,6 +81,13 @@ func H_C32_cleanup() {
 			}
 		}
 	}
+	// a renamed repository: id 3 is also alive in a simple shard under another name (its shards
+	// disagree on the name; the property lets cleanup remove such a repository, but not its
+	// neighbours in the compound shard)
+	renamed := haveCompound && !tomb[0] && verifrt.Bool("renamedRepo3")
+	if renamed {
+		verifrt.FSPut("/idx/r3new_v16.00000.zoekt", index.VerifSimpleShardBytes(3, "r3-renamed", []string{"c.go"}, []string{"package r3\n"}))
+	}
 	verifrt.FSPut("/idx/r9_v16.00000.zoekt.123.tmp", []byte("partial"))
 	var assigned []uint32
 	var isAssigned [5]bool
@@ -125,6 +132,9 @@ func H_C32_cleanup() {
 		for i := 0; i < 2; i++ {
 			name := "r" + string(rune('3'+i))
 			inIndex, _ := c32Where(name)
+			if renamed && i == 0 {
+				continue // shards of repository 3 disagree on its name: cleanup may remove it
+			}
 			if isAssigned[3+i] {
 				mode := " (shard merging on)"
 				if !merging {
@@ -140,7 +150,15 @@ func H_C32_cleanup() {
 	// a second cleanup with the same assignment changes nothing
 	before := c32Snapshot()
 	cleanup("/idx", assigned, now, merging)
-	verifrt.Assert(c32Snapshot() == before, "a second cleanup with the same assignment changes nothing")
+	if !renamed {
+		// (a renamed repository is first removed, then - being assigned - un-tombstoned again by the
+		// next run; the property does not ask for a fixed point there)
+		verifrt.Assert(c32Snapshot() == before, "a second cleanup with the same assignment changes nothing")
+	}
+	if haveCompound && merging && isAssigned[4] {
+		in4, _ := c32Where("r4")
+		verifrt.Assert(in4, "over repeated cleanups an assigned repository in a compound shard stays searchable")
+	}
 	verifrt.Observe("assigned", len(assigned))
 	verifrt.Reach("returned")
 }
